@@ -318,6 +318,13 @@ class Formatter:
         return f"@@L{node.lineno}"
 
     @final
+    def escape_string_literal(self, value: str) -> str:
+        """Escapes the characters that cannot stand for themselves inside a
+        double quoted string literal (the same in C, Go and Python)."""
+        escapes = {"\\": "\\\\", '"': '\\"', "\n": "\\n", "\r": "\\r", "\t": "\\t"}
+        return "".join(escapes.get(char, char) for char in value)
+
+    @final
     def format_value(self, value: Value) -> str:
         """Format value to its string representation."""
         if value is True or value is False:
